@@ -18,7 +18,18 @@ CATALOG = os.path.join(F.VERIF, "selftest", "mutants.json")
 
 def load_catalog():
     with open(CATALOG) as fh:
-        return json.load(fh)["mutants"]
+        muts = json.load(fh)["mutants"]
+    # the confirmed changes written by sub-agents (seeded/<id>/patch.diff) are mutants too: expected to fire under their own property
+    sd = os.path.join(F.VERIF, "seeded")
+    if os.path.isdir(sd):
+        for d in sorted(os.listdir(sd)):
+            mp = os.path.join(sd, d, "meta.json")
+            pp = os.path.join(sd, d, "patch.diff")
+            if os.path.exists(mp) and os.path.exists(pp):
+                with open(mp) as fh:
+                    meta = json.load(fh)
+                muts.append({"id": "S-" + d, "props": [meta["property"]], "what": meta["change"], "expect": [""], "patch": pp})
+    return muts
 
 
 def make_copy(repo):
@@ -27,6 +38,13 @@ def make_copy(repo):
         shutil.copy2(os.path.join(repo, item), os.path.join(d, item))
     shutil.copytree(os.path.join(repo, "src"), os.path.join(d, "src"))
     return d
+
+
+def apply_patch(copy, patch):
+    p = subprocess.run(["git", "apply", "--unsafe-paths", "--directory=" + copy, patch], cwd=copy, stdout=subprocess.PIPE, stderr=subprocess.STDOUT, text=True)
+    if p.returncode != 0:
+        p = subprocess.run("patch -p1 -s < %s" % patch, shell=True, cwd=copy, stdout=subprocess.PIPE, stderr=subprocess.STDOUT, text=True)
+    return None if p.returncode == 0 else "patch does not apply: " + p.stdout[-300:]
 
 
 def apply_edits(copy, edits):
@@ -46,7 +64,7 @@ def apply_edits(copy, edits):
 def run_mutant(m, prop, base_repo):
     copy = make_copy(base_repo)
     try:
-        err = apply_edits(copy, m["edits"])
+        err = apply_patch(copy, m["patch"]) if "patch" in m else apply_edits(copy, m["edits"])
         if err:
             return {"id": m["id"], "status": "stale", "why": err}
         env = dict(os.environ)
